@@ -164,6 +164,8 @@ pub enum Top {
     Sudo { addr: String, script: Script, helper: bool },
     SetBlock { height: u64, time_nanos: u64, chain_id: String, next: bool },
     QueryBattery,
+    /// a write (or removal) through `App::contract_storage_mut`: it lands in that contract's key space and nowhere else
+    Poke { addr: String, key: Binary, value: Option<Binary> },
 }
 
 #[derive(Clone, Debug, Serialize, Deserialize)]
@@ -709,6 +711,41 @@ impl World {
                     t.push(format!("block {:?}", self.model.block));
                 }
                 rep.bump("e1/block_changes");
+                (discs, None)
+            }
+            Top::Poke { addr, key, value } => {
+                if self.model.st.contracts.contains_key(addr) {
+                    let r = catch(|| {
+                        let mut st = self.app.contract_storage_mut(&Addr::unchecked(addr.clone()));
+                        match value {
+                            Some(v) => st.set(key.as_slice(), v.as_slice()),
+                            None => st.remove(key.as_slice()),
+                        }
+                    });
+                    rep.bump("e1/accessors/writes_through_contract_storage_mut");
+                    if let Err(p) = r {
+                        discs.push(Disc { props: vec!["C08"], sig: "contract-storage-accessor-panics".into(), detail: p });
+                        return (discs, None);
+                    }
+                    let c = self.model.st.contracts.get_mut(addr).unwrap();
+                    match value {
+                        Some(v) => {
+                            c.storage.insert(key.to_vec(), v.to_vec());
+                        }
+                        None => {
+                            c.storage.remove(key.as_slice());
+                        }
+                    }
+                    if let Some(t) = self.transcript.as_mut() {
+                        t.push(format!("poke {} {:?} {:?}", addr, key, value));
+                    }
+                    let mut ds = self.compare_state(rep, "poke");
+                    for d in ds.iter_mut() {
+                        d.props = vec!["C08"];
+                    }
+                    discs.extend(ds);
+                    discs.extend(self.compare_accessors(rep));
+                }
                 (discs, None)
             }
             Top::QueryBattery => {
